@@ -23,7 +23,10 @@ HEAD = ["<meta charset=windows-1251>", '<meta http-equiv="Content-Type" content=
         '<script>"<meta charset=koi8-r>"</script>', "<!--c-->", "<style>" + "a{}" * 370 + "</style>",
         '<meta http-equiv=refresh content="1; url=x">', "<meta CHARSET=old>",
         # a Content-Type pragma that declares no charset at all / an empty one: the rewrite must still produce a declaration
-        '<meta http-equiv=Content-Type content="text/html">', '<meta content="a; CHARSET = " http-equiv=content-type>']
+        '<meta http-equiv=Content-Type content="text/html">', '<meta content="a; CHARSET = " http-equiv=content-type>',
+        # a Content-Type pragma with no content attribute at all declares nothing and cannot be rewritten: a declaration
+        # must still be injected (alone, and followed/preceded by the other letters through the word enumeration)
+        '<meta http-equiv=Content-Type>', '<meta HTTP-EQUIV=CONTENT-TYPE name=content>']
 BODIES = ["<p title=a>x</p>", "<p title=é>é x</p>", "<p title=😀>😀</p><meta charset=iso-8859-2>",
           "<p title=Écoleé data-q='Ñ=1'>École É;</p>"]      # (upper-case Latin-1: named references that also exist without ';')
 
